@@ -148,6 +148,24 @@ def gen_cases(seed, n):
                            T('PayPal', 'payout', -32000, tags=tg, c='Shopping', s='Online'), T('Grocer', 'g', 1632)]))
         cases.append(case([T('PayPal', 'in', 6400, tags=tg, c='Shopping', s='Online'), T('PayPal', 'refund', -640, c='Shopping', s='Online'),
                            T('Ref', 'r', -192, c='Bills', s='Power')], views=VIEWSETS[3]))
+    # every subset of the special tags (mixed case, either order) on single transactions, both signs and zero:
+    # the category view restates the precedence income > investment > transfer on its own
+    import itertools
+    spell = {'income': ['income', 'INCOME'], 'transfer': ['transfer', 'Transfer'], 'investment': ['investment', 'InVestment']}
+    k = 0
+    for r in range(0, 4):
+        for sub in itertools.permutations(['income', 'transfer', 'investment'], r):
+            for a in (32000, -32000, 0):
+                k += 1
+                tg = [spell[w][k % 2] for w in sub] + (['misc'] if k % 3 == 0 else [])
+                cases.append(case([T('Broker', 'ACH TRANSFER VANGUARD', a, tags=tg, c='Money', s='Moves'), T('Grocer', 'g', 1632)],
+                                  views=VIEWSETS[2] if k % 4 == 0 else None))
+    # ... and mixed within one merchant / one category
+    cases.append(case([T('Broker', 'buy', -32000, tags=['transfer', 'investment'], c='Money', s='Moves'),
+                       T('Broker', 'fee', 640, tags=['investment'], c='Money', s='Moves'),
+                       T('Broker', 'in', 6400, tags=['Investment', 'Transfer'], c='Money', s='Moves'),
+                       T('Bank', 'pay', -64000, tags=['transfer', 'income'], c='Money', s='Moves'),
+                       T('Bank', 'x', 1280, tags=['investment', 'income', 'transfer'], c='Money', s='Other'), T('Grocer', 'g', 1632)]))
     # refunds netted inside a merchant, transfer-tagged net outflow next to real refunds
     cases.append(case([T('Outfitter', 'buy', 1280), T('Outfitter', 'return', -3200), T('Airline', 'refund', -6400, c='Travel', s='Air'),
                        T('Grocer', 'g', 5120)]))
@@ -390,6 +408,19 @@ def compare_data(data, st, J):
                    'transfer': st['transfers_in'] + st['transfers_out']}
         if tt_bad is None and all_listed and tt_sum != want_tt:
             tt_bad = {'sum_over_categories': tt_sum, 'analysed_totals': want_tt}
+        if tt_bad is None and all_listed:
+            # the same buckets from the analysed transactions directly (income > investment > transfer), and the top-level figures
+            direct = {'spending': 0, 'income': 0, 'investment': 0, 'transfer': 0}
+            for m in st['by_merchant']:
+                for t in m['transactions']:
+                    b = spec_type(t['amount'], t['tags'])
+                    if b:
+                        direct[b] += abs(t['amount'])
+            top = {'spending': data.get('spendingTotal'), 'income': data.get('incomeTotal'), 'investment': data.get('investmentTotal'),
+                   'transfer': (data.get('transfersIn') or 0) + (data.get('transfersOut') or 0)}
+            if direct != want_tt or top != tt_sum:
+                tt_bad = {'sum_over_categories': tt_sum, 'top_level_figures': top, 'analysed_totals': want_tt,
+                          'bucket_table_over_analysed_transactions': direct}
         if tt_bad is not None:
             v.append(('C12/placeholder-in-data' if placeholder and any(JS_PH in n and n not in {m['displayName'] for m in cvm} for n in names)
                       else 'C12/type-totals', tt_bad))
